@@ -16,6 +16,9 @@ use crate::schedx::{CaseInfo, Judgement};
 
 #[derive(Clone, Debug)]
 pub struct Case {
+    /// one blocking lock request per execution is refused with ENOLCK (no lock records left): the
+    /// open must report it and stay outside
+    pub enolck: bool,
     /// (processes only) every opener starts a helper program (`sleep`) while it holds the database and
     /// stays alive for a while after closing its handle: the helper must not inherit the lock
     pub helper: bool,
@@ -46,39 +49,42 @@ pub struct Case {
 pub fn cases(tier: Tier) -> Vec<Case> {
     let q = tier == Tier::Quick;
     vec![
-        Case { helper: false, hardlink: false, direct: None, stat_fault: None, grow_plain: None, sync_fault_grow: None, second_fd: false, procs: false, init_fault: None, eintr: false, openers: 2, file_exists: true, bound: if q { 6 } else { 12 } },
-        Case { helper: false, hardlink: false, direct: None, stat_fault: None, grow_plain: None, sync_fault_grow: None, second_fd: false, procs: false, init_fault: None, eintr: false, openers: 2, file_exists: false, bound: if q { 4 } else { 8 } },
-        Case { helper: false, hardlink: false, direct: None, stat_fault: None, grow_plain: None, sync_fault_grow: None, second_fd: false, procs: false, init_fault: None, eintr: false, openers: 3, file_exists: true, bound: if q { 2 } else { 3 } },
-        Case { helper: false, hardlink: false, direct: None, stat_fault: None, grow_plain: None, sync_fault_grow: None, second_fd: false, procs: false, init_fault: None, eintr: false, openers: 3, file_exists: false, bound: if q { 2 } else { 3 } },
-        Case { helper: false, hardlink: false, direct: None, stat_fault: None, grow_plain: None, sync_fault_grow: None, second_fd: false, procs: false, init_fault: None, eintr: true, openers: 2, file_exists: true, bound: if q { 3 } else { 6 } },
-        Case { helper: false, hardlink: false, direct: None, stat_fault: None, grow_plain: None, sync_fault_grow: None, second_fd: false, procs: false, init_fault: None, eintr: true, openers: 3, file_exists: false, bound: if q { 1 } else { 2 } },
-        Case { helper: false, hardlink: false, direct: None, stat_fault: None, grow_plain: None, sync_fault_grow: None, second_fd: false, procs: false, init_fault: Some(0), eintr: false, openers: 3, file_exists: false, bound: if q { 2 } else { 3 } },
-        Case { helper: false, hardlink: false, direct: None, stat_fault: None, grow_plain: None, sync_fault_grow: None, second_fd: false, procs: false, init_fault: Some(1), eintr: false, openers: 3, file_exists: false, bound: if q { 1 } else { 2 } },
-        Case { helper: false, hardlink: false, direct: None, stat_fault: None, grow_plain: None, sync_fault_grow: Some(0), second_fd: false, procs: false, init_fault: None, eintr: false, openers: 2, file_exists: true, bound: if q { 2 } else { 4 } },
-        Case { helper: false, hardlink: false, direct: None, stat_fault: None, grow_plain: None, sync_fault_grow: Some(0), second_fd: false, procs: true, init_fault: None, eintr: false, openers: 2, file_exists: true, bound: if q { 3 } else { 6 } },
+        Case { enolck: false, helper: false, hardlink: false, direct: None, stat_fault: None, grow_plain: None, sync_fault_grow: None, second_fd: false, procs: false, init_fault: None, eintr: false, openers: 2, file_exists: true, bound: if q { 6 } else { 12 } },
+        Case { enolck: false, helper: false, hardlink: false, direct: None, stat_fault: None, grow_plain: None, sync_fault_grow: None, second_fd: false, procs: false, init_fault: None, eintr: false, openers: 2, file_exists: false, bound: if q { 4 } else { 8 } },
+        Case { enolck: false, helper: false, hardlink: false, direct: None, stat_fault: None, grow_plain: None, sync_fault_grow: None, second_fd: false, procs: false, init_fault: None, eintr: false, openers: 3, file_exists: true, bound: if q { 2 } else { 3 } },
+        Case { enolck: false, helper: false, hardlink: false, direct: None, stat_fault: None, grow_plain: None, sync_fault_grow: None, second_fd: false, procs: false, init_fault: None, eintr: false, openers: 3, file_exists: false, bound: if q { 2 } else { 3 } },
+        Case { enolck: false, helper: false, hardlink: false, direct: None, stat_fault: None, grow_plain: None, sync_fault_grow: None, second_fd: false, procs: false, init_fault: None, eintr: true, openers: 2, file_exists: true, bound: if q { 3 } else { 6 } },
+        Case { enolck: false, helper: false, hardlink: false, direct: None, stat_fault: None, grow_plain: None, sync_fault_grow: None, second_fd: false, procs: false, init_fault: None, eintr: true, openers: 3, file_exists: false, bound: if q { 1 } else { 2 } },
+        Case { enolck: false, helper: false, hardlink: false, direct: None, stat_fault: None, grow_plain: None, sync_fault_grow: None, second_fd: false, procs: false, init_fault: Some(0), eintr: false, openers: 3, file_exists: false, bound: if q { 2 } else { 3 } },
+        Case { enolck: false, helper: false, hardlink: false, direct: None, stat_fault: None, grow_plain: None, sync_fault_grow: None, second_fd: false, procs: false, init_fault: Some(1), eintr: false, openers: 3, file_exists: false, bound: if q { 1 } else { 2 } },
+        Case { enolck: false, helper: false, hardlink: false, direct: None, stat_fault: None, grow_plain: None, sync_fault_grow: Some(0), second_fd: false, procs: false, init_fault: None, eintr: false, openers: 2, file_exists: true, bound: if q { 2 } else { 4 } },
+        Case { enolck: false, helper: false, hardlink: false, direct: None, stat_fault: None, grow_plain: None, sync_fault_grow: Some(0), second_fd: false, procs: true, init_fault: None, eintr: false, openers: 2, file_exists: true, bound: if q { 3 } else { 6 } },
         // the holder grows the file while the others wait (every second opener maps with populate)
-        Case { helper: false, hardlink: false, direct: None, stat_fault: None, grow_plain: Some(0), sync_fault_grow: None, second_fd: false, procs: false, init_fault: None, eintr: false, openers: 2, file_exists: true, bound: if q { 2 } else { 4 } },
-        Case { helper: false, hardlink: false, direct: None, stat_fault: None, grow_plain: Some(0), sync_fault_grow: None, second_fd: false, procs: true, init_fault: None, eintr: false, openers: 2, file_exists: true, bound: if q { 3 } else { 6 } },
+        Case { enolck: false, helper: false, hardlink: false, direct: None, stat_fault: None, grow_plain: Some(0), sync_fault_grow: None, second_fd: false, procs: false, init_fault: None, eintr: false, openers: 2, file_exists: true, bound: if q { 2 } else { 4 } },
+        Case { enolck: false, helper: false, hardlink: false, direct: None, stat_fault: None, grow_plain: Some(0), sync_fault_grow: None, second_fd: false, procs: true, init_fault: None, eintr: false, openers: 2, file_exists: true, bound: if q { 3 } else { 6 } },
         // the waiting opener's length query fails
-        Case { helper: false, hardlink: false, direct: None, stat_fault: Some(1), grow_plain: None, sync_fault_grow: None, second_fd: false, procs: false, init_fault: None, eintr: false, openers: 2, file_exists: true, bound: if q { 2 } else { 4 } },
-        Case { helper: false, hardlink: false, direct: None, stat_fault: Some(1), grow_plain: None, sync_fault_grow: None, second_fd: false, procs: true, init_fault: None, eintr: false, openers: 2, file_exists: true, bound: if q { 3 } else { 6 } },
+        Case { enolck: false, helper: false, hardlink: false, direct: None, stat_fault: Some(1), grow_plain: None, sync_fault_grow: None, second_fd: false, procs: false, init_fault: None, eintr: false, openers: 2, file_exists: true, bound: if q { 2 } else { 4 } },
+        Case { enolck: false, helper: false, hardlink: false, direct: None, stat_fault: Some(1), grow_plain: None, sync_fault_grow: None, second_fd: false, procs: true, init_fault: None, eintr: false, openers: 2, file_exists: true, bound: if q { 3 } else { 6 } },
         // the second opener uses another name (hard link) of the same file
-        Case { helper: false, hardlink: true, direct: None, stat_fault: None, grow_plain: None, sync_fault_grow: None, second_fd: false, procs: false, init_fault: None, eintr: false, openers: 2, file_exists: true, bound: if q { 3 } else { 6 } },
-        Case { helper: false, hardlink: true, direct: None, stat_fault: None, grow_plain: None, sync_fault_grow: None, second_fd: false, procs: true, init_fault: None, eintr: false, openers: 2, file_exists: true, bound: if q { 3 } else { 6 } },
+        Case { enolck: false, helper: false, hardlink: true, direct: None, stat_fault: None, grow_plain: None, sync_fault_grow: None, second_fd: false, procs: false, init_fault: None, eintr: false, openers: 2, file_exists: true, bound: if q { 3 } else { 6 } },
+        Case { enolck: false, helper: false, hardlink: true, direct: None, stat_fault: None, grow_plain: None, sync_fault_grow: None, second_fd: false, procs: true, init_fault: None, eintr: false, openers: 2, file_exists: true, bound: if q { 3 } else { 6 } },
         // an opener that asks for direct writes, on a fresh and on an existing file
-        Case { helper: false, hardlink: false, direct: Some(0), stat_fault: None, grow_plain: None, sync_fault_grow: None, second_fd: false, procs: false, init_fault: None, eintr: false, openers: 2, file_exists: false, bound: if q { 2 } else { 4 } },
-        Case { helper: false, hardlink: false, direct: Some(0), stat_fault: None, grow_plain: None, sync_fault_grow: None, second_fd: false, procs: true, init_fault: None, eintr: false, openers: 2, file_exists: false, bound: if q { 3 } else { 6 } },
-        Case { helper: false, hardlink: false, direct: Some(1), stat_fault: None, grow_plain: None, sync_fault_grow: None, second_fd: false, procs: true, init_fault: None, eintr: false, openers: 2, file_exists: true, bound: if q { 2 } else { 4 } },
+        Case { enolck: false, helper: false, hardlink: false, direct: Some(0), stat_fault: None, grow_plain: None, sync_fault_grow: None, second_fd: false, procs: false, init_fault: None, eintr: false, openers: 2, file_exists: false, bound: if q { 2 } else { 4 } },
+        Case { enolck: false, helper: false, hardlink: false, direct: Some(0), stat_fault: None, grow_plain: None, sync_fault_grow: None, second_fd: false, procs: true, init_fault: None, eintr: false, openers: 2, file_exists: false, bound: if q { 3 } else { 6 } },
+        Case { enolck: false, helper: false, hardlink: false, direct: Some(1), stat_fault: None, grow_plain: None, sync_fault_grow: None, second_fd: false, procs: true, init_fault: None, eintr: false, openers: 2, file_exists: true, bound: if q { 2 } else { 4 } },
+        // the lock request of one opener is refused outright (ENOLCK)
+        Case { enolck: true, helper: false, hardlink: false, direct: None, stat_fault: None, grow_plain: None, sync_fault_grow: None, second_fd: false, procs: false, init_fault: None, eintr: false, openers: 2, file_exists: true, bound: if q { 3 } else { 6 } },
+        Case { enolck: true, helper: false, hardlink: false, direct: None, stat_fault: None, grow_plain: None, sync_fault_grow: None, second_fd: false, procs: false, init_fault: None, eintr: false, openers: 3, file_exists: false, bound: if q { 1 } else { 2 } },
         // holders that start a helper program which outlives their handle (descriptor inheritance)
-        Case { helper: true, hardlink: false, direct: None, stat_fault: None, grow_plain: None, sync_fault_grow: None, second_fd: false, procs: true, init_fault: None, eintr: false, openers: 2, file_exists: true, bound: if q { 1 } else { 3 } },
-        Case { helper: true, hardlink: false, direct: Some(0), stat_fault: None, grow_plain: None, sync_fault_grow: None, second_fd: false, procs: true, init_fault: None, eintr: false, openers: 2, file_exists: false, bound: if q { 1 } else { 3 } },
-        Case { helper: true, hardlink: false, direct: Some(1), stat_fault: None, grow_plain: Some(0), sync_fault_grow: None, second_fd: false, procs: true, init_fault: None, eintr: false, openers: 2, file_exists: true, bound: if q { 1 } else { 2 } },
+        Case { enolck: false, helper: true, hardlink: false, direct: None, stat_fault: None, grow_plain: None, sync_fault_grow: None, second_fd: false, procs: true, init_fault: None, eintr: false, openers: 2, file_exists: true, bound: if q { 1 } else { 3 } },
+        Case { enolck: false, helper: true, hardlink: false, direct: Some(0), stat_fault: None, grow_plain: None, sync_fault_grow: None, second_fd: false, procs: true, init_fault: None, eintr: false, openers: 2, file_exists: false, bound: if q { 1 } else { 3 } },
+        Case { enolck: false, helper: true, hardlink: false, direct: Some(1), stat_fault: None, grow_plain: Some(0), sync_fault_grow: None, second_fd: false, procs: true, init_fault: None, eintr: false, openers: 2, file_exists: true, bound: if q { 1 } else { 2 } },
         // the same bodies as real processes under the kernel's own flock
-        Case { helper: false, hardlink: false, direct: None, stat_fault: None, grow_plain: None, sync_fault_grow: None, second_fd: false, procs: true, init_fault: None, eintr: false, openers: 2, file_exists: true, bound: if q { 4 } else { 12 } },
-        Case { helper: false, hardlink: false, direct: None, stat_fault: None, grow_plain: None, sync_fault_grow: None, second_fd: false, procs: true, init_fault: None, eintr: false, openers: 2, file_exists: false, bound: if q { 4 } else { 8 } },
-        Case { helper: false, hardlink: false, direct: None, stat_fault: None, grow_plain: None, sync_fault_grow: None, second_fd: false, procs: true, init_fault: None, eintr: false, openers: 3, file_exists: false, bound: if q { 2 } else { 3 } },
-        Case { helper: false, hardlink: false, direct: None, stat_fault: None, grow_plain: None, sync_fault_grow: None, second_fd: true, procs: true, init_fault: None, eintr: false, openers: 2, file_exists: true, bound: if q { 3 } else { 6 } },
-        Case { helper: false, hardlink: false, direct: None, stat_fault: None, grow_plain: None, sync_fault_grow: None, second_fd: false, procs: true, init_fault: Some(0), eintr: false, openers: 3, file_exists: false, bound: if q { 1 } else { 2 } },
+        Case { enolck: false, helper: false, hardlink: false, direct: None, stat_fault: None, grow_plain: None, sync_fault_grow: None, second_fd: false, procs: true, init_fault: None, eintr: false, openers: 2, file_exists: true, bound: if q { 4 } else { 12 } },
+        Case { enolck: false, helper: false, hardlink: false, direct: None, stat_fault: None, grow_plain: None, sync_fault_grow: None, second_fd: false, procs: true, init_fault: None, eintr: false, openers: 2, file_exists: false, bound: if q { 4 } else { 8 } },
+        Case { enolck: false, helper: false, hardlink: false, direct: None, stat_fault: None, grow_plain: None, sync_fault_grow: None, second_fd: false, procs: true, init_fault: None, eintr: false, openers: 3, file_exists: false, bound: if q { 2 } else { 3 } },
+        Case { enolck: false, helper: false, hardlink: false, direct: None, stat_fault: None, grow_plain: None, sync_fault_grow: None, second_fd: true, procs: true, init_fault: None, eintr: false, openers: 2, file_exists: true, bound: if q { 3 } else { 6 } },
+        Case { enolck: false, helper: false, hardlink: false, direct: None, stat_fault: None, grow_plain: None, sync_fault_grow: None, second_fd: false, procs: true, init_fault: Some(0), eintr: false, openers: 3, file_exists: false, bound: if q { 1 } else { 2 } },
     ]
 }
 
@@ -86,7 +92,7 @@ pub fn case_infos(tier: Tier) -> Vec<CaseInfo> {
     cases(tier)
         .iter()
         .map(|c| CaseInfo {
-            label: format!("{}{}openers-{}{}{}-c{}", if c.procs { "processes-" } else { "" }, c.openers, if c.file_exists { "existing" } else { "absent" }, if c.helper { "-helper-program" } else { "" }, if c.hardlink { "-second-name-hard-link" } else if c.direct.is_some() { "-direct-writes" } else if c.grow_plain.is_some() { "-holder-grows-file" } else if c.stat_fault.is_some() { "-lengthqueryfail" } else if c.sync_fault_grow.is_some() { "-syncfail-then-growth" } else if c.second_fd { "-second-descriptor" } else if c.eintr { "-one-EINTR" } else if let Some(i) = c.init_fault { if i == 0 { "-initfail0" } else { "-initfail1" } } else { "" }, c.bound),
+            label: format!("{}{}openers-{}{}{}-c{}", if c.procs { "processes-" } else { "" }, c.openers, if c.file_exists { "existing" } else { "absent" }, if c.helper { "-helper-program" } else { "" }, if c.hardlink { "-second-name-hard-link" } else if c.direct.is_some() { "-direct-writes" } else if c.grow_plain.is_some() { "-holder-grows-file" } else if c.stat_fault.is_some() { "-lengthqueryfail" } else if c.sync_fault_grow.is_some() { "-syncfail-then-growth" } else if c.second_fd { "-second-descriptor" } else if c.enolck { "-one-ENOLCK" } else if c.eintr { "-one-EINTR" } else if let Some(i) = c.init_fault { if i == 0 { "-initfail0" } else { "-initfail1" } } else { "" }, c.bound),
             describe: json!({"openers_are": if c.procs { "child processes released one system call at a time; flock answered by the kernel" } else { "threads; flock modelled by the scheduler" }, "openers": c.openers, "file": if c.file_exists { "exists (empty database, closed)" } else { "does not exist yet" }, "opener_body": "open(path); inside += 1; commit own marker; read all markers; yield; inside -= 1; close", "preemption_bound": c.bound}),
         })
         .collect()
@@ -191,7 +197,7 @@ pub fn run_one(case: &Case, path: &str, prefix: &[u8], policy: RwPolicy) -> (Exe
                     obs.lock().unwrap().interrupted.push(i);
                     return;
                 }
-                Ok(Err(jammdb::Error::Io(e))) if e.kind() == std::io::ErrorKind::Interrupted => {
+                Ok(Err(jammdb::Error::Io(e))) if e.kind() == std::io::ErrorKind::Interrupted || e.raw_os_error() == Some(libc::ENOLCK) => {
                     // a signal interrupted the wait for the lock: reporting the error (and staying
                     // outside) is a legitimate answer
                     obs.lock().unwrap().interrupted.push(i);
@@ -252,7 +258,11 @@ pub fn run_one(case: &Case, path: &str, prefix: &[u8], policy: RwPolicy) -> (Exe
             obs.lock().unwrap().closed.push(i);
         }));
     }
-    crate::sched::sched().set_eintr_budget(if case.eintr { 1 } else { 0 });
+    if case.enolck {
+        crate::sched::sched().set_lock_failure_budget(1, libc::ENOLCK);
+    } else {
+        crate::sched::sched().set_eintr_budget(if case.eintr { 1 } else { 0 });
+    }
     let res = run_execution(prefix, bodies, policy, true);
     crate::sched::sched().set_eintr_budget(0);
     let mut js = vec![];
@@ -294,7 +304,7 @@ pub fn run_one(case: &Case, path: &str, prefix: &[u8], policy: RwPolicy) -> (Exe
     let interrupted = o.interrupted.clone();
     if !interrupted.is_empty() {
         outcome.push_str(&format!("eintr{:?};", interrupted));
-        if !case.eintr && case.init_fault.is_none() && case.stat_fault.is_none() && case.direct.is_none() {
+        if !case.eintr && !case.enolck && case.init_fault.is_none() && case.stat_fault.is_none() && case.direct.is_none() {
             js.push(Judgement { class: "open_failed".into(), detail: format!("openers {:?} got Interrupted although no signal was injected", interrupted) });
         }
     }
